@@ -26,6 +26,11 @@ type c03StreamTap struct {
 	mu          sync.Mutex
 	writes      map[int][]c03WriteRec // by connection id
 	stalledOnce atomic.Bool
+	// tcp-reset: when the closing direction has carried resetAt bytes the connection is reset (both
+	// directions fail from then on); the write that crosses the mark is held for 100 ms meanwhile
+	resetAt   int64
+	onReset   func()
+	resetDone atomic.Bool
 }
 
 type c03WriteRec struct {
@@ -60,6 +65,10 @@ func (t *c03StreamTap) filter(connID int, clientToServer bool, offset int64, b [
 			t.stalledOnce.Store(true)
 			time.Sleep(time.Millisecond)
 		}
+	}
+	if t.resetAt > 0 && offset+int64(len(b)) > t.resetAt && t.resetDone.CompareAndSwap(false, true) {
+		go t.onReset()
+		time.Sleep(100 * time.Millisecond)
 	}
 	t.mu.Lock()
 	t.writes[connID] = append(t.writes[connID], c03WriteRec{offset, len(b), time.Since(t.t0)})
